@@ -37,15 +37,15 @@ ASSUMPTIONS = [
     'inside buffered write() calls is not explored',
     'step budget per file 6e6 + 4000*len(file) monitored events (PY_START + JUMP)',
 ]
-PROBES = ['allocation_failed_under_memory_limit', 'symlinked_input', 'hidden_or_glob_name', 'damaged_file_fault_fired', 'exception_in_converter', 'failed_after_output_began', 'two_inputs_one_output', 'worker_ge3_tasks',
+PROBES = ['output_dir_inside_input_tree', 'dangling_link_in_input_dir', 'allocation_failed_under_memory_limit', 'symlinked_input', 'hidden_or_glob_name', 'damaged_file_fault_fired', 'exception_in_converter', 'failed_after_output_began', 'two_inputs_one_output', 'worker_ge3_tasks',
           'bad_file_first', 'channel_subset_overlap', 'jobs_gt_files', 'jobs_eq_1', 'foreign_file', 'other_format_file', 'subdir', 'ignored_result',
           'schedule_explicit', 'clock_skew', 'healthy_converted']
 
 STEMS = ['a', 'b', 'c', 'A', 'ab', 'well', 'w1', 'B', '.hidden', 'w.v2', 'a_b', 'a b', 'x[1]']
 SUBDIRS = ['sub', 'sub', 'Run [2]', '.cache', 'a.dir']
 CHANNEL_POOL = {
-    'bit': ['COND', 'SN  ', 'SP  ', 'GR  ', 'CAL ', 'TEN ', 'DEPT', 'TIME', 'RHOB'],
-    'rp66v1': ['DEPT', 'TIME', 'GR', 'CAL', 'TENS', 'RHOB', 'NPHI', 'TDEP', 'INDEX'],
+    'bit': ['COND', 'SN  ', 'SP  ', 'GR  ', 'CAL ', 'TEN ', 'DEPT', 'TIME', 'RHOB', '  GR'],
+    'rp66v1': ['DEPT', 'TIME', 'GR', 'CAL', 'TENS', 'RHOB', 'NPHI', 'TDEP', 'INDEX', 'GR ', ' GR'],
     'lis': ['DEPT', 'TIME', 'GR  ', 'CALI', 'TENS', 'RHOB', 'NPHI', 'SP  ', 'ILD '],
 }
 CONVERTERS_ENABLED = ['bit', 'rp66v1', 'lis']
@@ -129,6 +129,13 @@ def gen_files(rng, converter, names, tier):
             else:
                 spec['faults'] = [damage.gen_fault(rng, len(by), fields) for _ in range(nf)]
         files.append(spec)
+    if rng.chance(0.06):
+        for _try in range(10):
+            path = ((rng.pick(SUBDIRS) + '/') if rng.chance(0.2) else '') + rng.pick(STEMS) + rng.pick(batch.EXT[native])
+            if path not in used and path.lower() not in {u.lower() + '/x' for u in used}:
+                used.add(path)
+                files.append({'path': path, 'dangling': rng.pick(['gone', 'gone', 'loop']), 'gen': {'world': 'foreign', 'seed': 0}})
+                break
     dirs = {f['path'].split('/')[0] for f in files if '/' in f['path']}
     files = [f for f in files if f['path'] not in dirs]
     return files
@@ -161,6 +168,8 @@ def generate(seed, tier):
           'files': files, 'runs': gen_runs(rng, len(files))}
     if rng.chance(0.25):
         sc['relative_paths'] = True      # relative input and output paths, working directory = their parent
+    if rng.chance(0.12):
+        sc['out_inside'] = 'LAS_OUT'     # the output directory is a not yet existing sub-directory of the input directory
     return sc
 
 
@@ -202,6 +211,10 @@ def _execute(scenario, res, br):
         res.probe('channel_subset_overlap')
     if any(f.get('symlink') for f in scenario['files']):
         res.probe('symlinked_input')
+    if scenario.get('out_inside'):
+        res.probe('output_dir_inside_input_tree')
+    if any(f.get('dangling') for f in scenario['files']):
+        res.probe('dangling_link_in_input_dir')
 
     runs = {}
     alone = None
